@@ -574,6 +574,177 @@ def oracle_emittance(run, n):
     return bad
 
 
+# ---------------------------------------------------------------- oracle (v): the cavity clause per entry of a VECTORISED cavity (round 6, C03-7)
+# "An accelerating or decelerating cavity multiplies the phase-space area of each transverse plane by exactly E_in/E_out": for a cavity
+# whose voltage (phase, length, or the beam energy) carries a vector dimension this is a statement about every entry, with the E_out of
+# the beam that actually LEAVES (entry by entry), and E_out = E_in + V cos(phi) of that entry.  Cavity alone and as the LAST element of
+# a Segment (uncoupled elements in front).  Only transverse emittances and energies are compared: tau of a zero-voltage / decelerating
+# entry of a mixed batch is NaN on the unchanged tree (findings F5 / F1 of C04), which does not reach x, px, y, py.
+def gen_cavity_vector(rng):
+    B = rng.choice([2, 2, 3, 4])
+    style = rng.choice(["mixed_zero", "mixed_zero", "mixed_sign", "all_zero", "all_on", "any"])
+    on = [1e6, 5e6, 2e7, 3.3e6]
+    off = [-1e6, -4e5]
+    if style == "mixed_zero":
+        V = [0.0] + [rng.choice(on + off) for _ in range(B - 1)]
+    elif style == "mixed_sign":
+        V = [rng.choice(on), rng.choice(off)] + [rng.choice(on + off) for _ in range(B - 2)]
+    elif style == "all_zero":
+        V = [0.0] * B
+    elif style == "all_on":
+        V = [rng.choice(on) for _ in range(B)]
+    else:
+        V = [rng.choice(on + off + [0.0]) for _ in range(B)]
+    rng.shuffle(V)
+    ph_pool = [0.0, 30.0, -20.0, 60.0, 135.0, 180.0]
+    phase = [rng.choice(ph_pool) for _ in range(B)] if rng.random() < 0.5 else rng.choice(ph_pool)
+    length = [rng.choice([0.5, 1.0, 2.0]) for _ in range(B)] if rng.random() < 0.3 else rng.choice([0.5, 1.0, 2.0])
+    E = rng.choice([2e7, 1e8, 6e9, float(round(10 ** rng.uniform(7.3, 10.5), 0))])
+    energy = [E * f for f in ([1.0, 1.5, 0.8, 2.0][:B])] if rng.random() < 0.25 else E
+    front = []
+    if rng.random() < 0.6:
+        for _ in range(rng.randrange(1, 4)):
+            c = rng.choice(["Drift", "Quadrupole", "HorizontalCorrector", "Marker"])
+            sp = gen_linear(rng, c)
+            if c == "Quadrupole":
+                sp["kw"]["tilt"] = 0.0
+                sp["kw"]["length"] = min(sp["kw"]["length"], 1.0)
+                sp["kw"]["k1"] = max(-10.0, min(10.0, sp["kw"]["k1"]))
+            front.append(sp)
+    return {"kind": "cavity_vector", "front": front, "beam_type": rng.choice(["parameter", "particle"]), "energy": energy,
+            "cavity": {"length": length, "voltage": V, "phase": phase, "frequency": rng.choice([1.3e9, 2.998e9])},
+            "beam_seed": rng.randrange(1 << 30)}
+
+
+def check_cavity_vector(case):
+    """-> (status, detail); fail names the entry, the observed emittance ratios / energies and the expected ones"""
+    import random
+    import cheetah
+    cv = case["cavity"]
+    V = cv["voltage"]
+    B = len(V)
+    bc = lambda v: [float(x) for x in (v if isinstance(v, list) else [v] * B)]  # noqa: E731
+    Vs, phs, Es = bc(V), bc(cv["phase"]), bc(case["energy"])
+    dE = [v * math.cos(float(torch.deg2rad(T(p)))) for v, p in zip(Vs, phs)]
+    if any(e + d <= 2 * M_E for e, d in zip(Es, dE)) or any(v != 0 and abs(math.cos(math.radians(p))) < 1e-3 for v, p in zip(Vs, phs)):
+        return "skip", {"what": "an entry is outside the cavity clause's domain"}
+    cav = cheetah.Cavity(length=T(cv["length"]), voltage=T(V), phase=T(cv["phase"]), frequency=T(cv["frequency"]), name="cav", dtype=torch.float64)
+    els = [build(sp) for sp in case["front"]]
+    lat = cheetah.Segment(els + [cav]) if (els or case.get("in_segment")) else cav
+    r = random.Random(case["beam_seed"])
+    mu = [r.uniform(-1e-3, 1e-3) for _ in range(6)] + [1.0]
+    if case["beam_type"] == "parameter":
+        b = cheetah.ParameterBeam(T(mu), T(rand_cov(r)), T(case["energy"]), dtype=torch.float64)
+    else:
+        ps = [[r.gauss(0, 1e-3) for _ in range(6)] + [1.0] for _ in range(40)]
+        b = cheetah.ParticleBeam(T(ps), T(case["energy"]), dtype=torch.float64)
+    try:
+        out = lat.track(b)
+    except AssertionError:
+        return "skip", {"what": "rejected by the code"}
+    s = 1.0
+    for e in els:
+        s *= max(1.0, float(e.transfer_map(T(Es[0]))[:6, :6].abs().max()))
+    rtol = 1e-7 + 1e-13 * s ** 4
+
+    def vec(t):
+        t = torch.as_tensor(t, dtype=torch.float64)
+        if t.dim() > 1:
+            raise ValueError(f"shape {tuple(t.shape)} for a batch of {B} entries")
+        return [float(x) for x in t.expand(B)]
+    try:
+        Eo, ex1, ey1 = vec(out.energy), vec(out.emittance_x), vec(out.emittance_y)
+        ex0, ey0 = vec(b.emittance_x), vec(b.emittance_y)
+        seven = out._mu[..., 6] if case["beam_type"] == "parameter" else out.particles[..., 6]
+    except Exception as ex:
+        return "fail", {"what": "outgoing beam does not carry one entry per cavity entry: " + repr(ex)[:200],
+                        "energy_shape": list(out.energy.shape), "emittance_shape": list(out.emittance_x.shape)}
+    fails = []
+    for k in range(B):
+        if not all(math.isfinite(v) for v in (Eo[k], ex1[k], ey1[k], ex0[k], ey0[k])):
+            fails.append({"entry": k, "what": "non-finite outgoing energy / transverse emittance", "E_out": Eo[k], "emit_x_out": ex1[k], "emit_y_out": ey1[k]})
+            continue
+        want_E = Es[k] + dE[k]
+        if abs(Eo[k] - want_E) > 1e-12 * max(abs(want_E), abs(Es[k])):
+            fails.append({"entry": k, "what": "E_out != E_in + V cos(phi) of this entry", "E_in": Es[k], "voltage": Vs[k], "phase_deg": phs[k],
+                          "E_out": Eo[k], "expected_E_out": want_E})
+        ratio = Es[k] / Eo[k]
+        if abs(ex1[k] - ratio * ex0[k]) > rtol * ex0[k] or abs(ey1[k] - ratio * ey0[k]) > rtol * ey0[k]:
+            fails.append({"entry": k, "what": "transverse emittance ratio != E_in/E_out of the outgoing beam of this entry", "voltage": Vs[k],
+                          "phase_deg": phs[k], "E_in": Es[k], "E_out": Eo[k], "E_in_over_E_out": ratio, "emit_x_ratio": ex1[k] / ex0[k],
+                          "emit_y_ratio": ey1[k] / ey0[k], "rtol": rtol})
+    if not bool((seven == 1.0).all()):
+        fails.append({"what": "seventh component != 1"})
+    if fails:
+        return "fail", {"what": fails[0]["what"], "entries": fails[:4], "n_entries": B}
+    return "ok", {}
+
+
+def shrink_cavity_vector(item):
+    """drop the elements in front, then reduce the batch to two entries, while the failure persists"""
+    case = json.loads(json.dumps({k: v for k, v in item.items() if k not in ("detail",)}))
+
+    def fails(c):
+        try:
+            return check_cavity_vector(c)[0] == "fail"
+        except Exception:
+            return False
+    had_front = bool(case["front"])
+    while case["front"]:
+        t = dict(case, front=case["front"][1:], in_segment=True)
+        if not fails(t):
+            break
+        case = t
+    if had_front and not case["front"]:
+        t = dict(case, in_segment=False)
+        if fails(t):
+            case = t
+    B = len(case["cavity"]["voltage"])
+    if B > 2:
+        sel = lambda v, idx: [v[i] for i in idx] if isinstance(v, list) else v  # noqa: E731
+        done = False
+        for i in range(B):
+            for j in range(i + 1, B):
+                t = json.loads(json.dumps(case))
+                t["cavity"] = {k: sel(v, (i, j)) for k, v in case["cavity"].items()}
+                t["energy"] = sel(case["energy"], (i, j))
+                if fails(t):
+                    case, done = t, True
+                    break
+            if done:
+                break
+    st, det = check_cavity_vector(case)
+    return dict(case, detail=det) if st == "fail" else item
+
+
+def oracle_cavity_vector(run, n):
+    bad = []
+    k = tries = 0
+    while k < n and tries < 4 * n:
+        tries += 1
+        case = gen_cavity_vector(run.rng)
+        try:
+            st, det = check_cavity_vector(case)
+        except Exception as ex:      # an exception of the implementation is an observation
+            st, det = "fail", {"what": "exception: " + repr(ex)[:300]}
+        if st == "skip":
+            run.count("cavvec_skipped")
+            continue
+        k += 1
+        run.add_case(["cavity_vector", case], True)
+        V = case["cavity"]["voltage"]
+        run.count("cavvec_" + ("segment_last" if case["front"] else "alone") + "_" + case["beam_type"])
+        run.count("cavvec_" + ("mixed_zero_nonzero" if (0.0 in V and any(V)) else "all_zero" if not any(V) else
+                               "mixed_sign" if (min(V) < 0 < max(V)) else "all_nonzero_one_sign"))
+        if isinstance(case["cavity"]["phase"], list):
+            run.count("cavvec_vector_phase")
+        if isinstance(case["energy"], list):
+            run.count("cavvec_vector_beam_energy")
+        if st == "fail":
+            bad.append(dict(case, detail=det))
+    return bad
+
+
 def oracle_seventh_track(run, n):
     """seventh component of every particle exactly one after track, for the non-linear paths too"""
     import cheetah
@@ -606,6 +777,8 @@ def recheck(item):
         return check_map(item["spec"], item["energy"])
     if k == "jacobian":
         return check_jac(item["spec"], item["point"], item["energy"])
+    if k == "cavity_vector":
+        return check_cavity_vector(item)
     return "fail", item.get("detail")
 
 
@@ -633,7 +806,7 @@ def shrink_map(item):
 def do_replay(run, path):
     r = json.loads(open(path).read())
     common.setup_python_env()
-    if r.get("kind") in ("map", "jacobian"):
+    if r.get("kind") in ("map", "jacobian", "cavity_vector"):
         st, det = recheck(r)
         print("replay:", "property holds on this input" if st != "fail" else f"property FAILS on this input: {det}")
         return 1 if st == "fail" else 0
@@ -689,6 +862,7 @@ def main(tier, replay=None):
     bad += stage("jacobians", oracle_jacobians, 120 if thorough else 8)
     bad += stage("emittance", oracle_emittance, 800 if thorough else 64)
     bad += stage("seventh", oracle_seventh_track, 200 if thorough else 20)
+    bad += stage("cavity_vector", oracle_cavity_vector, 600 if thorough else 60)
     run.cov["proved_nonlinear"] = [
         "Bmad-X drift: Jacobian symplectic at every point of the paraxial region (C03_driftx_*)",
         "Bmad-X quadrupole (Coq model Bmadx/QuadX.v of C07, eps := 0): the explicit matrix quadx_jac is the derivative of the coded step along every "
@@ -713,6 +887,8 @@ def main(tier, replay=None):
         "and the closure theorems, not entry by entry (that is C02's correspondence)",
         "six-dimensional determinant = 1 (follows from M^T S M = S; not proved as a separate Coq statement)",
         "emittance invariance on real beams (1e-7 relative)",
+        "cavity clause per entry of a vectorised cavity (voltage / phase / length / beam energy vectors; zero, non-zero, mixed-sign entries), alone and "
+        "as the last element of a Segment, both beam types: emittance ratio == E_in/E_out of the outgoing beam of that entry, E_out == E_in + V cos(phi)",
     ]
     for f in common.load_known_findings(PID):
         run.cov["known_findings_not_reproduced"].append(f["id"])  # none are expected for C03
@@ -722,7 +898,12 @@ def main(tier, replay=None):
         item = bad[0]
         if item["kind"] == "map":
             item = shrink_map(item)
-        run.violation(dict(item, relation="J^T S6 J = S6 (S6 = diag(J2,J2,-J2)), seventh row/component = 1, cavity block det = Ei/Ef",
+        if item["kind"] == "cavity_vector":
+            item = shrink_cavity_vector(item)
+        rel = ("per entry of a vectorised cavity (alone / last element of a Segment): emittance_out / emittance_in == E_in / E_out of the outgoing beam "
+               "of that entry, and E_out == E_in + V cos(phi) of that entry") if item["kind"] == "cavity_vector" else \
+            "J^T S6 J = S6 (S6 = diag(J2,J2,-J2)), seventh row/component = 1, cavity block det = Ei/Ef"
+        run.violation(dict(item, relation=rel,
                            n_failing=len(bad), others=[b["detail"] for b in bad[1:4]]))
     elif structural or corr_fail:
         item = (structural or corr_fail)[0]
